@@ -1761,10 +1761,49 @@ impl IRBuilder {
             }
         }
 
-        Ok(IRNode::Aggregate {
-            input: Box::new(input),
-            group_by,
-            aggregations,
+        // The aggregate operator emits the group-by columns first and the aggregate values
+        // after them. A head that lists an aggregate before a plain variable
+        // (`q(sum<Y>, X) <- ...`) needs its columns put back into head order.
+        let has_ranking = aggregations.iter().any(|(f, _)| f.is_ranking());
+        let n_vars = head
+            .args
+            .iter()
+            .filter(|t| matches!(t, Term::Variable(_)))
+            .count();
+        let (mut next_var, mut next_agg) = (0, n_vars);
+        let head_order: Vec<usize> = head
+            .args
+            .iter()
+            .map(|t| {
+                if matches!(t, Term::Variable(_)) {
+                    next_var += 1;
+                    next_var - 1
+                } else {
+                    next_agg += 1;
+                    next_agg - 1
+                }
+            })
+            .collect();
+        if has_ranking || head_order.iter().copied().eq(0..head_order.len()) {
+            return Ok(IRNode::Aggregate {
+                input: Box::new(input),
+                group_by,
+                aggregations,
+                output_schema,
+            });
+        }
+        let mut emitted_schema = vec![String::new(); output_schema.len()];
+        for (head_pos, &col) in head_order.iter().enumerate() {
+            emitted_schema[col] = output_schema[head_pos].clone();
+        }
+        Ok(IRNode::Map {
+            input: Box::new(IRNode::Aggregate {
+                input: Box::new(input),
+                group_by,
+                aggregations,
+                output_schema: emitted_schema,
+            }),
+            projection: head_order,
             output_schema,
         })
     }
